@@ -32,7 +32,8 @@ SeqBytes = _Ty('SeqBytes')      # immutable sequence of byte strings (spec level
 SeqStr = _Ty('SeqStr')
 NoneT = _Ty('NoneT')
 Any = _Ty('Any')
-Opaque = _Ty('Opaque')
+Opaque = _Ty('Opaque')          # an object (truthy)
+Value = _Ty('Value')            # a value of unknown type and truthiness
 Opt = _Ty('Opt')
 Obj = _Ty('Obj')
 Tup = _Ty('Tup')
@@ -43,6 +44,8 @@ MapStr = _Ty('MapStr')
 DictStrObj = _Ty('DictStrObj')
 DictStrStr = _Ty('DictStrStr')
 Callback = _Ty('Callback')
+TupleObj = _Ty('TupleObj')        # tuple of arbitrary objects, symbolic length
+ListObj = _Ty('ListObj')
 
 REGISTRY = {'contracts': {}, 'loops': {}, 'specs': {}, 'lemmas': {}, 'fields': {}, 'opaques': {}, 'inlines': set(),
             'externs': {}}
